@@ -121,7 +121,7 @@ struct State {
   bool failarmed = false; Val failk; u64 alloccnt = 0; bool failed_once = false;
   u64 live_heap = 0;
   unsigned lastrange_id = 0; i64 lastrange_lo = 0, lastrange_hi = -1; size_t lastrange_input = 0;   // most recent sx_range variable (fast sx_choice)
-  std::map<std::pair<unsigned, u64>, std::pair<z3::expr, z3::expr>> divcache;   // (dividend id, constant divisor) -> (quotient, remainder) variables
+  std::map<std::pair<unsigned, u64>, std::vector<z3::expr>> divcache;   // (dividend id, constant divisor) -> (quotient, remainder) variables
   // lookup caches (never shared between states: reset on copy and on any unmapping)
   Obj *rc = nullptr, *wc = nullptr;
   void nocache() { rc = wc = nullptr; }
